@@ -16,6 +16,25 @@ import (
 	"verifharness/internal/gen"
 )
 
+type FieldJ struct {
+	K    string `json:"k"`
+	Ty   int    `json:"ty"`
+	S    string `json:"s"`
+	Bits uint64 `json:"bits"`
+}
+type OptJ struct {
+	Oid uint32   `json:"oid"`
+	L   []uint16 `json:"l"`
+}
+type RowJ struct {
+	N      string      `json:"n"`
+	SK     string      `json:"sk"`
+	Tags   [][2]string `json:"tags"`
+	Fields []FieldJ    `json:"fields"`
+	Opts   []OptJ      `json:"opts"`
+	T      uint64      `json:"t"`
+}
+
 type pools struct {
 	rows   []influx.Row
 	tags   []influx.Tag
@@ -108,6 +127,24 @@ func runRows(c *Case) {
 		return
 	}
 	c.Hex = hex.EncodeToString(full)
+	if len(full) <= 3000 {
+		for i := range rows {
+			x := &rows[i]
+			rj := RowJ{N: hex.EncodeToString([]byte(x.Name)), SK: hex.EncodeToString(x.ShardKey), T: uint64(x.Timestamp), Tags: [][2]string{}, Fields: []FieldJ{}, Opts: []OptJ{}}
+			for _, t := range x.Tags {
+				rj.Tags = append(rj.Tags, [2]string{hex.EncodeToString([]byte(t.Key)), hex.EncodeToString([]byte(t.Value))})
+			}
+			for _, f := range x.Fields {
+				rj.Fields = append(rj.Fields, FieldJ{K: hex.EncodeToString([]byte(f.Key)), Ty: int(f.Type), S: hex.EncodeToString([]byte(f.StrValue)), Bits: math.Float64bits(f.NumValue)})
+			}
+			for _, o := range x.IndexOptions {
+				oj := OptJ{Oid: o.Oid, L: []uint16{}}
+				oj.L = append(oj.L, o.IndexList...)
+				rj.Opts = append(rj.Opts, oj)
+			}
+			c.RowsJ = append(c.RowsJ, rj)
+		}
+	}
 	// an older and larger batch, decoded before every attempt so that the pools hold stale rows
 	old := append(genRows(r), genRows(r)...)
 	for len(old) < len(rows)+1 {
